@@ -316,7 +316,7 @@ fn op_strategy() -> BoxedStrategy<OpDesc> {
     .boxed()
 }
 
-fn strategy() -> BoxedStrategy<Case> {
+pub fn strategy() -> BoxedStrategy<Case> {
     (
         prop::collection::vec(op_strategy(), 1..4),
         prop::collection::vec((0u8..4, prop_oneof![3 => 0u64..3, 1 => any::<u64>()]), 1..8),
@@ -378,6 +378,10 @@ pub fn push_oracle(t: &Tables, c: &PushCase, probe: &mut Probe) -> Result<(), Fa
     Ok(())
 }
 
+pub fn push_strategy() -> BoxedStrategy<PushCase> {
+    (program_case(&Tables::build(), QUICK_SHAPE), prop::collection::vec(any::<u8>(), 4)).prop_map(|(vm, order_keys)| PushCase { vm, order_keys }).boxed()
+}
+
 pub fn run(ctx: &mut Ctx) {
     ctx.rule = "operators: call histories [(operator, seed)...] over a registry of selectors (incl. weighted / dynamic / erased trees), WithRate, WithOneOverLength, Umad (3 constructors, Vector and Plushy), TwoPointXo / UniformXo (Vec, Bitstring), collection generators, Bitstring::random*, all choice flavours, gene generators, individual generators and the usual select-recombine-mutate-score pipeline; each call runs twice from clones of a word-counting generator (equal results, equal word counts, equal next word), repeats within a history must agree, and a third run happens on another thread (fresh operator value) after that thread's rand::rng() was used. push: generated programs run twice and once more with the inputs declared in a permuted order. non-trivial = the operation consumed >= 1 random word / the program mentions >= 1 input; distinct by JSON encoding".into();
     ctx.assumptions.push("'nothing else influences the outcome' can only be refuted by sampling".into());
@@ -386,9 +390,7 @@ pub fn run(ctx: &mut Ctx) {
     ctx.run_prop(
         "push_evaluation",
         np,
-        || {
-            (program_case(&Tables::build(), QUICK_SHAPE), prop::collection::vec(any::<u8>(), 4)).prop_map(|(vm, order_keys)| PushCase { vm, order_keys })
-        },
+        push_strategy,
         |c, p| {
             thread_local! { static T: Tables = Tables::build(); }
             T.with(|t| push_oracle(t, c, p))
